@@ -322,16 +322,16 @@ def const(l):
 # per function: list of (regex on the stripped source line, label function, required?)
 ANCHORS = {
     'append': [
-        (r'^self\._counter \+= 1$', const(['Count']), True),
+        (r'^self\._counter\s*(\+= 1|= self\._counter \+ 1)$', const(['Count']), True),
         (r'^self\._queue\.append\(\(', lab_append, True),
     ],
     'dispatchEvents': [
-        (r'^self\._flush_batch = .*len\(self\._queue\)$', const(['Snap']), True),
-        (r'^heappush\(self\._priority_queue, self\._queue\.popleft\(\)\)$', const(['Move']), True),
-        (r'^dispatcher\(event, ', lab_call, True),
+        (r'=\s*len\(self\._queue\)$', const(['Snap']), True),
+        (r'self\._queue\.popleft\(\)', const(['Move']), True),
+        (r'^dispatcher\(', lab_call, True),
     ],
     '_fire': [
-        (r'^\w+ = self\._currently_handling$', const(['FReadH']), True),
+        (r'= self\._currently_handling$', const(['FReadH']), True),
     ],
     '_dispatcher': [
         (r'^self\._currently_handling = event$', const(['SetH']), True),
@@ -340,9 +340,9 @@ ANCHORS = {
         (r'^event\.handler = event_handler$', lab_sethd, True),
     ],
     'reduce_time_left': [
-        (r'^if time_left >= 0 and ', const(['RTest']), True),
+        (r'^if time_left >= 0', const(['RTest']), True),
         (r'^self\._time_left = time_left$', const(['RWrite']), True),
-        (r'^if self\._time_left == 0 and self\.handler is not None:$', lab_rhd, True),
+        (r'^if self\._time_left == 0 and self\.handler', lab_rhd, True),
         (r'^self\.handler\.__self__,$', const(['RGet']), True),
     ],
     'fallback': [
@@ -548,14 +548,15 @@ def run_case(case):
 
     verdict = schedule(s, m, sch, case)
 
-    # ---- tear down: free mode, stop the manager, join
+    # ---- tear down (not part of the observation): free mode, stop the manager, join
+    teardown = []
     s.abort = True
     s.release_all()
     try:
         try:
             m.stop()
         except BaseException as e:
-            s.errors.append('stop() raised %s' % type(e).__name__)
+            teardown.append('stop() raised %s' % type(e).__name__)
         m._running = False
         h = m._currently_handling
         if isinstance(h, cevents.generate_events):
@@ -568,10 +569,11 @@ def run_case(case):
             except OSError:
                 pass
     except Exception as e:      # pragma: no cover
-        s.errors.append('teardown: %r' % (e,))
+        teardown.append('teardown: %r' % (e,))
     for th in threads:
-        th.join(3)
-    alive = [th for th in threads if th.is_alive()]
+        th.join(20)
+    if any(th.is_alive() for th in threads):
+        teardown.append('threads did not terminate')
     CUR = None
     if poller is not None:
         for fd in (poller._ctrl_recv, poller._ctrl_send):
@@ -580,7 +582,7 @@ def run_case(case):
             except OSError:
                 pass
     obs = {'verdict': verdict, 'log': s.log, 'trace': s.trace, 'steps': s.nsteps,
-           'errors': s.errors + (['threads did not terminate'] if alive else []),
+           'errors': list(s.errors), 'teardown': teardown,
            'returned': [s.byidx[t + 1].fire_returned for t in range(len(nev))],
            'missing_anchors': list(MISSING)}
     return obs
@@ -729,7 +731,7 @@ class C03(Prop):
     props_file = 'Props/C03.v'
     imports = ['Model.Wake', 'Model.WakeObs']
     quick_n = 1000
-    thorough_n = 6000
+    thorough_n = 4000
     rule = ('real Manager.run() thread + 1-3 real firing threads (1-3 events each) stepped line by line under a '
             'scheduler: fallback generator / Select / Poll / EPoll waiter, with and without a timer-like '
             'generate_events handler; schedules: sticky runs with 0-3 pre-emptions at sampled step indices (all thread '
@@ -749,9 +751,9 @@ class C03(Prop):
         self._obs = {}
 
     # ---- cases
-    def generate(self, rng, n, tier):
+    def generate(self, rng, n, tier, with_sweep=True):
         cases = []
-        cfgs = CONFIGS[:6]
+        cfgs = CONFIGS[:6] if with_sweep else []
         # systematic coarse sweeps (one whole fire() placed after the loop's j-th visible action)
         sweep = []
         for mode, timer in cfgs:
@@ -799,7 +801,7 @@ class C03(Prop):
         return cases
 
     def search(self, rng, tier):
-        return self.generate(rng, 900 if tier == 'quick' else 6000, 'thorough')
+        return self.generate(rng, 300 if tier == 'quick' else 3000, 'quick', with_sweep=False)
 
     # ---- implementation
     def impl(self, case):
@@ -809,10 +811,22 @@ class C03(Prop):
         st['runs'] = st.get('runs', 0) + 1
         st['controlled_steps'] = st.get('controlled_steps', 0) + obs['steps']
         st['visible_actions'] = st.get('visible_actions', 0) + len(obs['trace'])
+        if obs.get('teardown'):
+            st['teardown_problems'] = st.get('teardown_problems', 0) + 1
         e = 'end_' + obs['verdict']['end']
         st[e] = st.get(e, 0) + 1
         mk = 'mode_' + case['mode'] + ('+timer' if case.get('timer') else '')
         st[mk] = st.get(mk, 0) + 1
+        sk = 'sched_' + case['sched']['kind']
+        st[sk] = st.get(sk, 0) + 1
+        # where in the loop's cycle the foreign appends landed (last visible loop action before the append)
+        hist = st.setdefault('foreign_append_after_loop_action', {})
+        last = 'start'
+        for t, l in obs['trace']:
+            if t == 0:
+                last = l[0]
+            elif l[0] == 'AppF':
+                hist[last] = hist.get(last, 0) + 1
         return obs
 
     # ---- model
